@@ -17,11 +17,44 @@ KNOWN_PATH = os.path.join(os.path.dirname(os.path.abspath(__file__)), 'known_fns
 
 
 def load_known():
+    """{qualified name: {sig, impl_self, kind, argc, vis}} of the functions of the audited tree"""
     try:
         with open(KNOWN_PATH) as f:
-            return set(json.load(f))
+            d = json.load(f)
+            return d if isinstance(d, dict) else {q: {} for q in d}
     except OSError:
         return None
+
+
+def restore_renames(raw, known):
+    """A private function of the audited tree that is missing while exactly one unknown function with the same
+    signature, kind and impl type exists has been renamed: give it its audited name back (in the body list and in every
+    reference), so that the rules anchored on it still find it and then judge its body.  Returns [(new name, old name)]."""
+    if not known:
+        return raw, []
+    present = set(b['q'] for b in raw['bodies'])
+    missing = [q for q in known if q not in present and '::{closure' not in q and known[q].get('vis') != 'pub' and known[q].get('sig')]
+    unknown = [b for b in raw['bodies'] if b['q'] not in known and '::{closure' not in b['q'] and b.get('vis') != 'pub']
+    pairs = []
+    for q in missing:
+        k = known[q]
+        cands = [b for b in unknown if b.get('sig') == k.get('sig') and b.get('impl_self') == k.get('impl_self') and b.get('kind') == k.get('kind')
+                 and b['q'].rsplit('::', 1)[0] == q.rsplit('::', 1)[0]]
+        others = [m2 for m2 in missing if m2 != q and known[m2].get('sig') == k.get('sig') and known[m2].get('impl_self') == k.get('impl_self') and m2.rsplit('::', 1)[0] == q.rsplit('::', 1)[0]]
+        if len(cands) == 1 and not others:
+            pairs.append((cands[0]['q'], q))
+    if not pairs:
+        return raw, []
+    text = json.dumps(raw)
+    for newq, oldq in pairs:
+        for a, b2 in ((newq, oldq), (newq.replace('raqote::', '', 1), oldq.replace('raqote::', '', 1))):
+            text = text.replace(json.dumps(a)[1:-1] + '"', json.dumps(b2)[1:-1] + '"').replace(json.dumps(a)[1:-1] + '::', json.dumps(b2)[1:-1] + '::')
+    raw2 = json.loads(text)
+    for b in raw2['bodies']:
+        for newq, oldq in pairs:
+            if b['q'] == oldq:
+                b['name'] = oldq.rsplit('::', 1)[1]
+    return raw2, pairs
 
 
 def _is_span(d):
